@@ -10,6 +10,10 @@
 
    The stream state below has the fields of the Go struct: header / headerC (latch) / trailer /
    closeErr / closedC, the calling context (cancelled or not) and whether clientSend was closed.
+   (Since then stream.go also guards the trailer with a mutex and Header()/Trailer() return copies
+   of the maps: neither changes a sequential run; metadata are values here, a step carries the
+   contents of the handler's map at call time, and sharing of maps is covered by Copy.v and by the
+   harness, which keeps modifying the maps it passed in or was given.)
    The four repairs made to stream.go are switchable ([fixes]) so that the code as it was
    ([fx_v0]) stays available; the current code is [fx_now].  No proofs in this file. *)
 From SC Require Import Base.Prelude.
